@@ -130,6 +130,11 @@ def run(ctx):
     # salt first + twins
     twins(ctx, P)
     hashed_subpackets_all_fed(ctx, P)
+    # what is framed and hashed for a certification is the packet body as it is on the wire (shared with C05): a user attribute keeps
+    # the stored encoding of its subpacket length, a JPEG header is only accepted with the length it is written with
+    from rules import c05
+    c05.stored_length_encoding(ctx, P)
+    c05.image_header_length_formula(ctx, P)
     # the canonicalised document that enters the digest (shared with C14)
     from rules import c14
     c14.hasher_rules(ctx, P)
